@@ -53,7 +53,7 @@ func (r *rep) Metric(name string, n int64)      { r.w.Metric(name, n) }
 
 func body(w *hx.W) {
 	rng := w.Rand("c09")
-	n := w.Pick(2500, 60000)
+	n := w.Pick(2500, 30000)
 	r := &rep{w: w}
 	for i := 0; i < n; i++ {
 		seed := rng.Int63()
@@ -77,7 +77,7 @@ func body(w *hx.W) {
 
 func concurrentPhase(w *hx.W, r *rep) {
 	rng := w.Rand("c09-concurrent")
-	n := w.Pick(160, 4000)
+	n := w.Pick(160, 2000)
 	for i := 0; i < n; i++ {
 		seed := rng.Int63()
 		sessions := 2 + rng.Intn(7)
